@@ -548,6 +548,11 @@ def expand(template_path, std=True):
                 appends = [re.sub(r"(?<![A-Za-z0-9_])self(?![A-Za-z0-9_])", "__self", a) for a in appends]
                 body = body.replace("__self::", "Self::").replace("Self::drop_unimock(&mut Self)", "Self::drop_unimock(&mut __self)")
                 g.log.rule("Rmutself: `mut self` parameter -> `self` + `let mut __self = self;`, body refers to __self (Verus has no `mut self`)")
+            mp = re.findall(r"(?<![A-Za-z0-9_])mut\s+([a-z_][A-Za-z0-9_]*)\s*:", sig.split("->")[0])
+            for pname in mp:
+                sig = re.sub(r"(?<![A-Za-z0-9_])mut\s+%s\s*:" % pname, "%s:" % pname, sig, count=1)
+                prepends = ["let mut %s = %s;" % (pname, pname)] + prepends
+                g.log.rule("Rmutparam: `mut x: T` parameter -> `x: T` + `let mut x = x;` (Verus has no `mut` parameters)")
             if prepends:
                 body = "{\n" + "\n".join(prepends) + "\n" + body[1:]
                 g.log.rule("Rghost: ghost declaration prepended to the body")
